@@ -162,12 +162,26 @@ let print_line (line : Stdlib.String.t) =
     Printf.printf "%s %s\n" id o
   | [] -> ()
 
+(* ---- mode "dump": <id> dump <hex table>|<hex ref>:<hex ref>,...  ->  <id> creates <hex>,... *)
+let dump_line line =
+  match Stdlib.String.split_on_char ' ' line with
+  | id :: "dump" :: rest ->
+    let ts = (match rest with [] -> "" | x :: _ -> x) in
+    let tables = if ts = "" then [] else Stdlib.String.split_on_char ',' ts in
+    let one t = (match Stdlib.String.split_on_char '|' t with
+      | [n; refs] -> (hb (if n = "-" then "" else n), Stdlib.List.map (fun r -> hb (if r = "-" then "" else r)) (if refs = "" then [] else Stdlib.String.split_on_char ':' refs))
+      | _ -> failwith "dump: bad table token") in
+    (match dump_creates (Stdlib.List.map one tables) with
+     | Some names -> Printf.printf "%s creates %s\n" id (Stdlib.String.concat "," (Stdlib.List.map hex names))
+     | None -> Printf.printf "%s err\n" id)
+  | _ -> ()
+
 let () =
   let mode = if Array.length Sys.argv > 1 then Sys.argv.(1) else "regex" in
   try
     while true do
       let line = input_line stdin in
-      if mode = "spec" then spec_line line else if mode = "print" then print_line line else
+      if mode = "dump" then dump_line line else if mode = "spec" then spec_line line else if mode = "print" then print_line line else
       match Stdlib.String.split_on_char ' ' line with
       | [id; text; cols; hidden; pk; partials; fks; xidx] ->
         let r = recover (hb text) (hlist cols) (hlist hidden) (hlist pk) (hlist partials)
